@@ -144,6 +144,29 @@ def ucdgenOp (rowsS : String) : String :=
         ++ ";bidi=[" ++ ",".intercalate (b.map (fun e => fmtCps e.1 ++ ":" ++ e.2)) ++ "]"
     | _, _, _ => "err:gen"
 
+/-- property files: `file:lo-hi:value;…` in LINE ORDER (any order is well-formed); one set table per
+(file, value) pair the harness asks the real `UcdTableGen` for -/
+def ucdpropsOp (propsS : String) : String :=
+  let lines : List (String × Gen'.URow) := ((propsS.splitOn ";").filter (· ≠ "")).filterMap (fun r =>
+    match r.splitOn ":" with
+    | [file, range, value] =>
+      (match range.splitOn "-" with
+       | [a, b] =>
+         let lo := parseHex a
+         let hi := parseHex b
+         some (file, { cps := (if lo == hi then .single lo else .range lo hi), gc := value, ccc := 0, bidi := "", width := none })
+       | _ => none)
+    | _ => none)
+  let want : List (String × String × String) := [("s", "Greek", "s_greek"), ("s", "Hebrew", "s_hebrew"), ("s", "Han", "s_han"),
+    ("j", "D", "j_d"), ("j", "L", "j_l"), ("j", "R", "j_r"), ("j", "T", "j_t"),
+    ("p", "Join_Control", "p_jc"), ("p", "Noncharacter_Code_Point", "p_nc"),
+    ("c", "Default_Ignorable_Code_Point", "c_di"), ("h", "L", "h_l"), ("h", "V", "h_v"), ("h", "T", "h_t")]
+  let tabs := want.map (fun w =>
+    let rows := (lines.filter (fun l => l.1 == w.1)).map (·.2)
+    (w.2.2, Gen'.setTable (fun r => r.gc == w.2.1) rows))
+  if tabs.any (fun x => x.2.isNone) then "err:set" else
+  ";".intercalate (tabs.map (fun x => x.1 ++ "=" ++ fmtSet (x.2.getD [])))
+
 def runModel (line : String) : String :=
   let f := (line.splitOn "|").toArray
   let arg (i : Nat) : String := f.getD i ""
@@ -198,7 +221,7 @@ def runModel (line : String) : String :=
      | p, "enforce" => fmtRes ((profByName p).enforce (parseStr (arg 3)))
      | _, _ => "PROTOCOL-ERROR")
   | "forbidden" => "-"
-  | "ucdgen" => ucdgenOp (arg 1)
+  | "ucdgen" => if arg 2 == "" then ucdgenOp (arg 1) else ucdgenOp (arg 1) ++ ";" ++ ucdpropsOp (arg 2)
   | "csvrow" => (match Csv.parseLine (parseStr (arg 1)) with | some r => fmtCsvRow r | none => "err")
   | "csvfile" =>
     "[" ++ " / ".intercalate ((Csv.parseFile (parseStr (arg 2))).map (fun it =>
